@@ -103,3 +103,33 @@ Proof.
   rewrite H1. simpl. unfold view in K. rewrite H1 in K. unfold flat in K. simpl in K.
   inversion K as [[K1 K2 K3]]. rewrite app_nil_r in K1. rewrite K1. reflexivity.
 Qed.
+
+(* ---------- a dynamic script (System.Runtime.LoadScript) between caller and callees ----------
+   LoadScript gives the script the flags  caller & requested & ReadOnly  and no DAO layer / notification base of its own
+   (only DynamicOnUnload).  That is a frame with read-only effective flags: in the machine, a call whose requested flags
+   are masked with ReadOnly (never layered: wrapped_ro). *)
+Definition fRO : N := 5.                                   (* ReadStates | AllowCall *)
+Definition Dyn (f : N) (body : prog) : prog := CallV false 0 (N.land f fRO) body.
+
+Lemma ro_mask fl f : ro (N.land fl (N.land f fRO)) = true.
+Proof.
+  unfold ro, fRO. apply N.eqb_eq. apply N.bits_inj. intros n.
+  rewrite !N.land_spec, N.bits_0.
+  destruct (N.testbit fl n), (N.testbit f n); simpl; auto;
+    destruct n as [|[p|p|]]; simpl; auto; destruct p; simpl; auto.
+Qed.
+
+(* whatever runs in or below a dynamic script — calls that try to write, notify, transfer, and then return, throw or
+   fault — and whoever catches: storage layers and the notification list are exactly as before.  ALL bodies, no guard *)
+Theorem dyn_leaves_no_trace pol f body cid fl it : pres (exec pol (Dyn f body) cid fl it).
+Proof.
+  intros s. unfold Dyn. cbn [exec]. case_if; auto. cbv zeta.
+  pose proof (ro_mask fl f) as R. rewrite (wrapped_ro it _ R). simpl.
+  pose proof (exec_ro pol body 0 (N.land fl (N.land f fRO)) false R s) as P.
+  destruct (exec pol body 0 (N.land fl (N.land f fRO)) false s); auto.
+Qed.
+
+(* the mask matters: were AllowNotify let through (All &^ WriteStates = 13), the frame would no longer be read-only and the
+   argument above ("no layer needed") is gone — a callee could notify, throw, and leave its event behind *)
+Lemma dyn_mask_refuted : exists fl f, ro (N.land fl (N.land f 13)) = false /\ has (N.land fl (N.land f 13)) fN = true.
+Proof. exists 15, 15. split; reflexivity. Qed.
